@@ -1,6 +1,18 @@
 theories/PipeIn/Model.vo theories/PipeIn/Model.glob theories/PipeIn/Model.v.beautified theories/PipeIn/Model.required_vo: theories/PipeIn/Model.v 
 theories/PipeIn/Model.vio: theories/PipeIn/Model.v 
 theories/PipeIn/Model.vos theories/PipeIn/Model.vok theories/PipeIn/Model.required_vos: theories/PipeIn/Model.v 
+theories/PipeIn/Sim.vo theories/PipeIn/Sim.glob theories/PipeIn/Sim.v.beautified theories/PipeIn/Sim.required_vo: theories/PipeIn/Sim.v theories/PipeIn/Model.vo
+theories/PipeIn/Sim.vio: theories/PipeIn/Sim.v theories/PipeIn/Model.vio
+theories/PipeIn/Sim.vos theories/PipeIn/Sim.vok theories/PipeIn/Sim.required_vos: theories/PipeIn/Sim.v theories/PipeIn/Model.vos
 theories/PipeIn/Inv.vo theories/PipeIn/Inv.glob theories/PipeIn/Inv.v.beautified theories/PipeIn/Inv.required_vo: theories/PipeIn/Inv.v theories/PipeIn/Model.vo
 theories/PipeIn/Inv.vio: theories/PipeIn/Inv.v theories/PipeIn/Model.vio
 theories/PipeIn/Inv.vos theories/PipeIn/Inv.vok theories/PipeIn/Inv.required_vos: theories/PipeIn/Inv.v theories/PipeIn/Model.vos
+theories/PipeIn/Thm.vo theories/PipeIn/Thm.glob theories/PipeIn/Thm.v.beautified theories/PipeIn/Thm.required_vo: theories/PipeIn/Thm.v theories/PipeIn/Model.vo theories/PipeIn/Inv.vo
+theories/PipeIn/Thm.vio: theories/PipeIn/Thm.v theories/PipeIn/Model.vio theories/PipeIn/Inv.vio
+theories/PipeIn/Thm.vos theories/PipeIn/Thm.vok theories/PipeIn/Thm.required_vos: theories/PipeIn/Thm.v theories/PipeIn/Model.vos theories/PipeIn/Inv.vos
+theories/PipeIn/PropsC11.vo theories/PipeIn/PropsC11.glob theories/PipeIn/PropsC11.v.beautified theories/PipeIn/PropsC11.required_vo: theories/PipeIn/PropsC11.v theories/PipeIn/Model.vo theories/PipeIn/Inv.vo theories/PipeIn/Thm.vo
+theories/PipeIn/PropsC11.vio: theories/PipeIn/PropsC11.v theories/PipeIn/Model.vio theories/PipeIn/Inv.vio theories/PipeIn/Thm.vio
+theories/PipeIn/PropsC11.vos theories/PipeIn/PropsC11.vok theories/PipeIn/PropsC11.required_vos: theories/PipeIn/PropsC11.v theories/PipeIn/Model.vos theories/PipeIn/Inv.vos theories/PipeIn/Thm.vos
+theories/PipeIn/PropsC11_examples.vo theories/PipeIn/PropsC11_examples.glob theories/PipeIn/PropsC11_examples.v.beautified theories/PipeIn/PropsC11_examples.required_vo: theories/PipeIn/PropsC11_examples.v theories/PipeIn/Model.vo theories/PipeIn/Sim.vo theories/PipeIn/Inv.vo theories/PipeIn/Thm.vo
+theories/PipeIn/PropsC11_examples.vio: theories/PipeIn/PropsC11_examples.v theories/PipeIn/Model.vio theories/PipeIn/Sim.vio theories/PipeIn/Inv.vio theories/PipeIn/Thm.vio
+theories/PipeIn/PropsC11_examples.vos theories/PipeIn/PropsC11_examples.vok theories/PipeIn/PropsC11_examples.required_vos: theories/PipeIn/PropsC11_examples.v theories/PipeIn/Model.vos theories/PipeIn/Sim.vos theories/PipeIn/Inv.vos theories/PipeIn/Thm.vos
